@@ -139,6 +139,24 @@ def main(tier):
                         ins = [x for x in ins if x] or ["2012-03-08"]
                     out, singles = run_all_one(tool, args, ins, mode)
                 execs.append(execution("%s %s" % (os.path.basename(tool), " ".join(args)), ins, out, singles))
+        # several zones in one process: the handle cache is keyed by name; names that are prefixes of each other, in both orders
+        PAIRS = [("EST", "EST5EDT"), ("NZ", "NZ-CHAT"), ("GB", "GB-Eire"), ("MST", "MST7MDT"), ("Etc/GMT+1", "Etc/GMT+10"), ("Etc/GMT-1", "Etc/GMT-14"),
+                 ("Europe/Berlin", "Europe/Berlin"), ("UTC", "UCT"), ("Asia/Kolkata", "Asia/Kathmandu"), ("America/Indiana/Knox", "America/Indiana/Knox_IN" )]
+        PAIRS = [pr for pr in PAIRS if all(os.path.exists("/usr/share/zoneinfo/" + z) for z in pr)]
+        for a, bz in PAIRS:
+            for zs in ([a, bz], [bz, a], [a, bz, a], [bz, bz, a]):
+                for when in ("2020-06-01T12:00:00", "2020-01-01T00:00:00"):
+                    for extra in ([], ["--next"]):
+                        allp = core.run([dzone] + extra + zs + [when], timeout=30)
+                        singles = [core.run([dzone] + extra + [z, when], timeout=30) for z in zs]
+                        execs.append(execution("dzone %s (zones as inputs) %s" % (" ".join(extra), when), zs, Out(allp.stdout, allp.returncode),
+                                               [Out(x.stdout, x.returncode) for x in singles]))
+            # the same two zones as --from-zone / --zone of one run against the composition of two runs through UTC
+            for fz, tz in ((a, bz), (bz, a)):
+                one = core.run([dconv, "--from-zone", fz, "--zone", tz, "-f", "%FT%T", "2020-06-01T12:00:00"], timeout=30)
+                mid = core.run([dconv, "--from-zone", fz, "-f", "%FT%T", "2020-06-01T12:00:00"], timeout=30)
+                two = core.run([dconv, "--zone", tz, "-f", "%FT%T", mid.stdout.strip() or "x"], timeout=30)
+                execs.append(execution("dconv --from-zone A --zone B vs two runs", ["%s>%s" % (fz, tz)], Out(one.stdout, one.returncode), [Out(two.stdout, max(mid.returncode, two.returncode))]))
         # > 255 consecutive needle searches in one process (the generation counter wraps)
         many = [rng.choice(pool[:60]) + " tail" for _ in range(300)]
         out = core.run([dconv, "-S", "-f", "%F"], inp="".join(x + "\n" for x in many), timeout=60).stdout
